@@ -1272,6 +1272,101 @@ func scenarioCommitAfterShrink(r *vh.Rand) (string, []string) {
 	return g.c.Header(), g.ops
 }
 
+// scenario 22: four voters; RemoveNode(4) is committed and applied by 2 and 3 but not yet by
+// the leader 1, which is then cut off together with 4; 2 and 3 elect a new leader and commit
+// a write; a read on 1 is confirmed by 4 only and stays pending; then 1 applies the removal.
+func scenarioRemovalWhileReadPending(r *vh.Rand) (string, []string) {
+	g := newScenarioGen(r, 4, uint64(6+r.Intn(3)), false, false)
+	if !g.elect(1, nil) {
+		return g.c.Header(), g.ops
+	}
+	g.propose(1)
+	g.settle(nil)
+	hold := map[uint64]bool{1: true, 4: true}
+	g.nextKey++
+	g.cc(1, uint64(pb.RemoveNode), 4)
+	g.update(1)
+	g.settleHold(nil, hold)
+	for i := 0; i < 2 && !g.Stopped; i++ {
+		g.do("T 1")
+		g.do(fmt.Sprintf("U 1 1 %d", g.c.Nodes[1].Applied))
+		g.settleHold(nil, hold)
+	}
+	for _, k := range []uint64{2, 3} {
+		g.update(k)
+		g.apply(k, 100)
+	}
+	// partition {1,4} | {2,3}: 2 is elected by 3 (two of the three remaining voters) and commits a write
+	g.dropPool(func(m pb.Message) bool { return true })
+	side := only(2, 3)
+	t0 := g.term(2)
+	g.tickUntil(2, func() bool { return g.role(2) == 1 && g.term(2) > t0 }, 80)
+	g.settle(side)
+	if g.Stopped || g.role(2) != 3 {
+		return g.c.Header(), g.ops
+	}
+	g.propose(2)
+	g.settle(side)
+	g.update(2)
+	g.apply(2, 100)
+	g.settle(side)
+	// a read on the old leader: only 4 answers
+	g.nextKey++
+	g.do(fmt.Sprintf("R 1 %d 1", g.nextKey))
+	g.do(fmt.Sprintf("U 1 1 %d", g.c.Nodes[1].Applied))
+	g.settleHold(only(1, 4), hold)
+	g.do(fmt.Sprintf("U 1 1 %d", g.c.Nodes[1].Applied))
+	// now the old leader applies the removal of 4
+	g.apply(1, 100)
+	g.update(1)
+	g.settleHold(only(1, 4), map[uint64]bool{})
+	return g.c.Header(), g.ops
+}
+
+// scenario 23: leadership is transferred to 2 the moment the old leader commits a write with
+// 2's acknowledgement; 2 wins the election but has not yet committed the no-op of its term
+// (its commit index is below the acknowledged write) when follower 3 forwards a read to it.
+func scenarioForwardedReadToNewLeader(r *vh.Rand) (string, []string) {
+	g := newScenarioGen(r, 3, uint64(6+r.Intn(3)), false, false)
+	if !g.elect(1, nil) {
+		return g.c.Header(), g.ops
+	}
+	g.propose(1)
+	g.settle(nil)
+	// a write that 2 acknowledges but whose commit index it never learns
+	g.propose(1)
+	g.settle(func(m pb.Message) bool { return m.Type == pb.Replicate && m.From == 1 && m.To == 2 })
+	g.settle(func(m pb.Message) bool { return m.Type == pb.ReplicateResp && m.From == 2 && m.To == 1 })
+	g.update(1)
+	g.apply(1, 100) // committed with {1,2} and applied on 1: acknowledged
+	g.dropPool(func(m pb.Message) bool { return true })
+	g.do("LT 1 2")
+	g.update(1)
+	g.settle(func(m pb.Message) bool { return m.Type == pb.TimeoutNow })
+	g.update(2)
+	// 2 collects 3's vote; its no-op is not replicated yet
+	g.settle(func(m pb.Message) bool {
+		return (m.Type == pb.RequestVote || m.Type == pb.RequestVoteResp) && only(2, 3)(m)
+	})
+	if g.Stopped || g.role(2) != 3 {
+		return g.c.Header(), g.ops
+	}
+	g.dropPool(func(m pb.Message) bool { return m.Type == pb.Replicate || m.Type == pb.ReplicateResp })
+	// 3 learns who leads (heartbeat) and forwards a read
+	g.do("T 2")
+	g.update(2)
+	g.dropPool(func(m pb.Message) bool { return m.Type == pb.Replicate || m.To == 1 || m.From == 1 })
+	g.settle(func(m pb.Message) bool { return only(2, 3)(m) && (m.Type == pb.Heartbeat || m.Type == pb.HeartbeatResp) })
+	g.nextKey++
+	g.do(fmt.Sprintf("R 3 %d 1", g.nextKey))
+	g.update(3)
+	g.settle(func(m pb.Message) bool {
+		return only(2, 3)(m) && m.Type != pb.Replicate && m.Type != pb.ReplicateResp
+	})
+	g.update(3)
+	return g.c.Header(), g.ops
+}
+
 var scenarios = []func(r *vh.Rand) (string, []string){
 	scenarioTransferWithUnappliedChange,
 	scenarioVoteRace, scenarioTransferRemove, scenarioDeposedLeaderRead, scenarioDelayedConfirmation,
@@ -1281,4 +1376,5 @@ var scenarios = []func(r *vh.Rand) (string, []string){
 	scenarioUnappliedChangesAndTimeout, scenarioRestartedLeaderPendingChange, scenarioStaleHigherTermReplica,
 	scenarioOnlyFullMemberRead, scenarioMatchingSnapshotBehindLog, scenarioSnapshotWithoutWitness,
 	scenarioQueuedReplicateAndTruncation, scenarioCommitAfterShrink,
+	scenarioRemovalWhileReadPending, scenarioForwardedReadToNewLeader,
 }
